@@ -52,3 +52,21 @@ def mutants(n=300, seed=2):
         seen.add(ms[i][1])
         print("---- case", i, ms[i][1], ms[i][3], "| impl:", res[i]["outcome"], res[i]["errors"][:2], res[i]["exc"])
     return ms, docs, res, fails
+
+def threads(n=200, seed=11):
+    return main(n, seed, threads=True)
+
+def tmut(n=300, seed=3, only=None):
+    ctx = common.Ctx("EXP", "quick", seed); ctx.snapshot()
+    import mutators as M, engine, collections
+    rng = random.Random(seed)
+    items = engine.make_mutant_items(ctx, rng, n, owners=only, threads=True)
+    engine.run_items(ctx, items)
+    by = collections.Counter((it.mutator, it.res["outcome"], it.model_accepts) for it in items)
+    for k, v in sorted(by.items()): print(v, k)
+    seen = set()
+    for it in items:
+        if (it.res["outcome"] == "accept") != it.model_accepts and it.mutator not in seen:
+            seen.add(it.mutator)
+            print("---- DISAGREE", it.mutator, it.desc, "| impl:", it.res["outcome"], it.res["errors"][:2], it.res["exc"], "model:", it.model_accepts)
+    return items
